@@ -13,10 +13,53 @@ fn any_f64_parse(s: &str) -> Result<f64, std::num::ParseFloatError> {
         "x".parse::<u8>().map(|_| 0.0).map_err(|_| unsafe { std::mem::transmute::<u8, std::num::ParseFloatError>(1u8) })
     }
 }
-/// stands in for `str::contains` in these harnesses, whose literals never contain the pattern the arm looks for (`_`):
-/// std's CharSearcher/memchr over symbolic bytes does not finish.  (Literals with separators are outside the claim.)
-fn no_separator<P: std::str::pattern::Pattern>(_s: &str, _p: P) -> bool {
-    false
+/// stands in for `str::contains` (std's CharSearcher/memchr machinery does not finish on symbolic bytes).  For a single
+/// ASCII `char` pattern it answers `false` and *asserts* that this is the right answer for the harness's literal (the
+/// literals never contain the separator the arm looks for), so the branch that rewrites the literal stays closed for
+/// symex; any other pattern type is a tripwire, so an arm that searches the literal differently is reported instead of
+/// being silently mis-modelled.
+fn contains_ascii_char<P: std::str::pattern::Pattern>(s: &str, p: P) -> bool {
+    if std::mem::size_of::<P>() == 4 && std::mem::align_of::<P>() == 4 {
+        // the only 4-byte Pattern type is `char`
+        let c: char = unsafe { std::mem::transmute_copy(&p) };
+        std::mem::forget(p);
+        let b = s.as_bytes();
+        let mut found = false;
+        let mut i = 0;
+        while i < b.len() {
+            if (c as u32) < 128 && b[i] == c as u8 {
+                found = true;
+            }
+            i += 1;
+        }
+        assert!(!found, "harness precondition: the literal does not contain the character the arm searches for");
+        return false;
+    }
+    if std::mem::align_of::<P>() == 4 && std::mem::size_of::<P>() <= 16 {
+        // `[char; N]`, N in 2..=4 (the only other 4-aligned Pattern types): exact, the answer stays symbolic
+        let n = std::mem::size_of::<P>() / 4;
+        let cs: [char; 4] = unsafe {
+            let mut cs = ['\u{10ffff}'; 4];
+            std::ptr::copy_nonoverlapping(&p as *const P as *const char, cs.as_mut_ptr(), n);
+            cs
+        };
+        std::mem::forget(p);
+        let b = s.as_bytes();
+        let mut found = false;
+        let mut i = 0;
+        while i < b.len() {
+            let mut j = 0;
+            while j < 4 {
+                if j < n && (cs[j] as u32) < 128 && b[i] == cs[j] as u8 {
+                    found = true;
+                }
+                j += 1;
+            }
+            i += 1;
+        }
+        return found;
+    }
+    panic!("tripwire: str::contains with a pattern this harness does not model")
 }
 /// float parser stub for syntactically valid float literals: std accepts them all, with any value (including infinity)
 fn any_f64_value(_s: &str) -> Result<f64, std::num::ParseFloatError> {
@@ -37,7 +80,7 @@ fn hex_digit(c: u8) -> Option<u128> {
 #[kani::proof]
 #[kani::unwind(37)]
 #[kani::stub(<f64 as std::str::FromStr>::from_str, any_f64_parse)]
-#[kani::stub(str::contains, no_separator)]
+#[kani::stub(str::contains, contains_ascii_char)]
 fn c12_hex_literal() {
     const MAXN: usize = 33;
     // the length is concrete (searching a string of symbolic length for `_` does not finish); leading zeros give every shorter value
@@ -81,7 +124,7 @@ fn c12_hex_literal() {
 #[kani::proof]
 #[kani::unwind(44)]
 #[kani::stub(<f64 as std::str::FromStr>::from_str, any_f64_value)]
-#[kani::stub(str::contains, no_separator)]
+#[kani::stub(str::contains, contains_ascii_char)]
 fn c14_decimal_literal() {
     // i128::MAX = 170141183460469231731687303715884105727
     let mut buf = *b"170141183460469231731687303715884105727";
@@ -113,7 +156,7 @@ fn c14_decimal_literal() {
 #[kani::proof]
 #[kani::unwind(8)]
 #[kani::stub(<f64 as std::str::FromStr>::from_str, any_f64_value)]
-#[kani::stub(str::contains, no_separator)]
+#[kani::stub(str::contains, contains_ascii_char)]
 fn c13_float_literal() {
     let m: u8 = kani::any();
     let e: [u8; 3] = kani::any();
